@@ -2,6 +2,7 @@
 from ..rt import check
 
 STREAMS = ["threads"]
+REGENERATE_SRC = True
 RULE = ("mixes of adopted, service and executed coroutine payloads per flavour next to thread payloads that block for "
         "200 ms; every payload records threading.get_ident() and the identity of its running loop / trio token; a "
         "non-atomic enter/exit counter per flavour inside the synchronous sections (widened with time.sleep(0)) would "
